@@ -187,7 +187,7 @@ INFO = {
     "files": ["mappyfile/parser.py", "mappyfile/transformer.py", "mappyfile/pprint.py", "mappyfile/quoter.py", "mappyfile/ordereddict.py", "mappyfile/utils.py", "mappyfile/mapfile.lark"],
     "functions": ["mappyfile.parser.Parser.parse", "lark LALR driver on mappyfile's table", "mappyfile.transformer.MapfileTransformer.*", "mappyfile.transformer.MapfileToDict.transform",
                   "mappyfile.pprint.PrettyPrinter._format", "mappyfile.quoter.Quoter.*", "mappyfile.utils.loads", "mappyfile.utils.dumps"],
-    "bounds": {"string_holes": "quick 2 / thorough 3 code points, 32..0x2FFF without quotes and backslash, not starting with '#'",
+    "bounds": {"string_holes": "quick 2 / thorough 3 code points, 32..0x2FFF without quotes and backslash, not starting with '#' (layer / map skeletons: 1..0x2FFF, single quotes allowed inside double-quoted strings)",
                "names": "2 characters [a-z][a-z0-9_]", "skeletons": "5 structural (one sharing GROUP / TEXT / FONT / POSITION between object types with different lexical rules, one with backslash-escaped quotes inside and at the end of strings) + 19 schema-generated (one per object type, every simple keyword slot)"},
     "outside": ["strings containing a quote character; strings of multi-alternative keywords that look like expressions (documented exclusions)",
                 "strings ending in a backslash (known finding KF-C01-TRAILING-BACKSLASH) and hex-colour-shaped strings (a different token class)",
